@@ -22,6 +22,7 @@ import (
 	"com.tuntun.rangers/node/src/utility"
 	"golang.org/x/crypto/sha3"
 	"strings"
+	"sync"
 )
 
 var (
@@ -29,6 +30,7 @@ var (
 	positionKey        = utility.StrToBytes("p")
 	decimalKey         = utility.StrToBytes("d")
 	rpgContractAddress = common.Address{}
+	rpgContractLock    sync.Mutex // guards rpgContractAddress: account databases are used from several goroutines
 )
 
 func (self *AccountDB) AddERC20Binding(name string, contract common.Address, position, decimal uint64) bool {
@@ -51,6 +53,8 @@ func (self *AccountDB) loadContractCache() {
 
 func (self *AccountDB) GetERC20Binding(name string) (found bool, contract common.Address, position uint64, decimal uint64) {
 	if 0 == strings.Compare(name, common.BLANCE_NAME) {
+		rpgContractLock.Lock()
+		defer rpgContractLock.Unlock()
 		if 0 == bytes.Compare(rpgContractAddress.Bytes(), common.Address{}.Bytes()) {
 			self.loadContractCache()
 		}
